@@ -196,6 +196,12 @@ def stub(x, y=0):
     return 7
 
 
+def stub2(x, y=0, tol=7, deep=0):
+    """a function whose own parameters are called like the rounders' options"""
+    RECV.append([describe(x), describe(y)])
+    return 7
+
+
 def make_keymap(klepto, enc):
     K = klepto.keymaps
     if enc == 'raw':
@@ -212,23 +218,27 @@ def spell(form, x, y):
         return (x, y), {}
     if form == 'kw':
         return (x,), {'y': y}
+    if form == 'kwnames':       # keyword arguments named like the rounding options (passed to stub2)
+        return (x,), {'y': y, 'tol': 7, 'deep': 0}
     return (), {'x': x, 'y': y}
 
 
 def run_cached(klepto, group, cfg):
     """cfg: tol, deep, enc, mode ('std'/'safe'/'keygen'), form"""
+    target = stub2 if cfg['form'] == 'kwnames' else stub
+
     def mk(tol):
         km = make_keymap(klepto, cfg['enc'])
         if cfg['mode'] == 'keygen':
-            return klepto.keygen(keymap=km, tol=tol, deep=cfg['deep'])(stub)
+            return klepto.keygen(keymap=km, tol=tol, deep=cfg['deep'])(target)
         mod = klepto.safe if cfg['mode'] == 'safe' else klepto
         alg = cfg.get('alg', 'inf')
         if alg == 'inf':
-            return mod.inf_cache(keymap=km, tol=tol, deep=cfg['deep'])(stub)
+            return mod.inf_cache(keymap=km, tol=tol, deep=cfg['deep'])(target)
         if alg == 'no':      # no_cache keeps nothing in memory: give it an archive so that a repeated key is a load
-            return mod.no_cache(cache=klepto.archives.dict_archive('round', cached=True), keymap=km, tol=tol, deep=cfg['deep'])(stub)
+            return mod.no_cache(cache=klepto.archives.dict_archive('round', cached=True), keymap=km, tol=tol, deep=cfg['deep'])(target)
         # (a bounded decorator asked for maxsize=None hands over to inf_cache: every setting must survive that)
-        return getattr(mod, alg + '_cache')(maxsize=cfg.get('maxsize', 100000), keymap=km, tol=tol, deep=cfg['deep'])(stub)
+        return getattr(mod, alg + '_cache')(maxsize=cfg.get('maxsize', 100000), keymap=km, tol=tol, deep=cfg['deep'])(target)
     f = mk(cfg['tol'])
     base = mk(None)
     cached = cfg['mode'] != 'keygen'
@@ -288,7 +298,7 @@ def run_standalone(klepto, group, cfg):
     """cfg: tol, which ('simple'/'shallow'/'deep'), form"""
     R = klepto.rounding
     dec = {'simple': R.simple_round, 'shallow': R.shallow_round, 'deep': R.deep_round}[cfg['which']]
-    f = dec(tol=cfg['tol'])(stub)
+    f = dec(tol=cfg['tol'])(stub2 if cfg['form'] == 'kwnames' else stub)
     events = []
     for c in group['calls']:
         memo = {} if cfg.get('alias') else None
@@ -405,7 +415,7 @@ def main(pid, tier):
                 # spelling probes: top-level floats passed by keyword only / positionally, through every decorator class
                 for alg in ALGS:
                     for mode in ('std', 'safe'):
-                        for form in ('allkw', 'kw', 'pos') if thorough else (('allkw', 'kw') if mode == 'std' else ('allkw',)):
+                        for form in ('allkw', 'kw', 'pos', 'kwnames') if thorough else (('allkw', 'kw', 'kwnames') if mode == 'std' else ('allkw', 'kwnames')):
                             for deep in ((False, True) if thorough else (False,)):
                                 jobs.append((g, dict(tol=tol, deep=deep, enc='str', mode=mode, form=form, alg=alg)))
             for which in ('simple', 'shallow', 'deep'):
@@ -413,6 +423,8 @@ def main(pid, tier):
                     continue
                 for form in (['pos', 'kw'] if thorough else [['pos', 'kw'][(g['sh'] + len(which)) % 2]]):
                     jobs.append((g, dict(tol=tol, which=which, form=form)))
+                    if g['sh'] == 1:
+                        jobs.append((g, dict(tol=tol, which=which, form='kwnames')))
                     if g['sh'] in ALIAS_SHAPES:
                         jobs.append((g, dict(tol=tol, which=which, form=form, alias=True)))
     t0 = time.time()
